@@ -3,6 +3,7 @@ package main
 import (
 	"errors"
 	"io"
+	"math/big"
 
 	"github.com/bilibili/smgo/sm2"
 )
@@ -59,6 +60,32 @@ func newScripted(c Cmd) *scriptedReader {
 	return r
 }
 
+// packed lays the given byte strings out one after the other in ONE backing array (followed by
+// 192 canary bytes) and returns them as sub-slices whose capacity extends over everything that
+// follows - the shape of a parsed record or packet.  An implementation that appends to one of its
+// inputs then overwrites the caller's neighbouring fields; the snapshots taken after the call show it.
+func packed(on bool, parts ...[]byte) [][]byte {
+	if !on {
+		return parts
+	}
+	total := 192
+	for _, p := range parts {
+		total += len(p)
+	}
+	buf := make([]byte, total)
+	for i := range buf {
+		buf[i] = canary
+	}
+	out := make([][]byte, len(parts))
+	off := 0
+	for i, p := range parts {
+		copy(buf[off:], p)
+		out[i] = buf[off : off+len(p)]
+		off += len(p)
+	}
+	return out
+}
+
 func init() {
 	register("sm2.genkey", func(ctx *Ctx, c Cmd, ev Ev) {
 		var rd io.Reader
@@ -98,17 +125,26 @@ func init() {
 		}()
 		var r, s []byte
 		var err error
+		if c.has("x1") { // substitute the x coordinate of [k]G (verification hook)
+			xv := new(big.Int).SetBytes(c.bytes("x1"))
+			sm2.VerifX1Hook = func(*big.Int) *big.Int { return new(big.Int).Set(xv) }
+			defer func() { sm2.VerifX1Hook = nil }()
+		}
 		switch c.str("kind") {
 		case "hashed":
 			e := c.bytes("e")
 			ins = [][]byte{e}
 			r, s, err = sm2.SignHashed(sr, priv, e)
 		case "za":
-			za, msg := c.bytes("za"), c.bytes("msg")
+			pk := packed(c.boolean("packed"), c.bytes("za"), priv, c.bytes("msg"))
+			za, msg := pk[0], pk[2]
+			priv = pk[1]
 			ins = [][]byte{za, msg}
 			r, s, err = sm2.SignZa(sr, priv, za, msg)
 		case "id":
-			id, px, py, msg := c.bytes("id"), c.bytes("pubx"), c.bytes("puby"), c.bytes("msg")
+			pk := packed(c.boolean("packed"), c.bytes("id"), c.bytes("pubx"), c.bytes("puby"), c.bytes("msg"), priv)
+			id, px, py, msg := pk[0], pk[1], pk[2], pk[3]
+			priv = pk[4]
 			ins = [][]byte{id, px, py, msg}
 			r, s, err = sm2.Sign(id, px, py, sr, priv, msg)
 		default:
@@ -180,12 +216,16 @@ func init() {
 			ins = append(ins, e)
 			ok, err = sm2.VerifyHashed(px, py, e, r, s)
 		case "za":
-			za, msg := c.bytes("za"), c.bytes("msg")
-			ins = append(ins, za, msg)
+			pk := packed(c.boolean("packed"), c.bytes("za"), r, s, px, py, c.bytes("msg"))
+			za, msg := pk[0], pk[5]
+			r, s, px, py = pk[1], pk[2], pk[3], pk[4]
+			ins = [][]byte{px, py, r, s, za, msg}
 			ok, err = sm2.VerifyZa(px, py, za, msg, r, s)
 		case "id":
-			id, msg := c.bytes("id"), c.bytes("msg")
-			ins = append(ins, id, msg)
+			pk := packed(c.boolean("packed"), c.bytes("id"), px, py, c.bytes("msg"), r, s)
+			id, msg := pk[0], pk[3]
+			px, py, r, s = pk[1], pk[2], pk[4], pk[5]
+			ins = [][]byte{px, py, r, s, id, msg}
 			ok, err = sm2.Verify(id, px, py, msg, r, s)
 		default:
 			panic("harness: bad kind")
@@ -193,7 +233,8 @@ func init() {
 		ev["ok"], ev["err"] = ok, errStr(err)
 	})
 	register("sm2.za", func(ctx *Ctx, c Cmd, ev Ev) {
-		id, px, py := c.bytes("id"), c.bytes("pubx"), c.bytes("puby")
+		pk := packed(c.boolean("packed"), c.bytes("id"), c.bytes("pubx"), c.bytes("puby"))
+		id, px, py := pk[0], pk[1], pk[2]
 		ev["za"], ev["err"] = B(nil), "unset"
 		za, err := sm2.ZA(id, px, py)
 		ev["za"], ev["err"] = B(za), errStr(err)
